@@ -193,6 +193,16 @@ func (g *brokerGen) badConnect() {
 	g.next++
 	id := g.next
 	pn, ver, rsv, clean, will, wq, wr, cid, auth := "MQTT", 4, 0, 1, "~", 0, 0, fmt.Sprintf("x%d", id), 1
+	if r.Intn(2) == 0 {
+		// a refused CONNECT that presents the client identifier of somebody else's session (stored or
+		// live), with either CleanSession value and possibly a will of its own: it must leave that
+		// session, its subscriptions and its will alone
+		cid = fmt.Sprintf("c%d", 1+r.Intn(4))
+		clean = r.Intn(2)
+		if r.Intn(2) == 0 {
+			will = fmt.Sprintf("%s:%s:%d:0", hexStr(g.name()), hexStr("forged"), r.Intn(3))
+		}
+	}
 	ndefects := 1
 	if r.Intn(4) == 0 {
 		ndefects = 2
